@@ -88,6 +88,10 @@ StrLit(x)     == [k |-> "str", v |-> x]                           \* "x"
 DLit(n)       == [k |-> "dlit", v |-> n]                          \* ne0  (xs:double literal)
 InstOf(e, t)  == [k |-> "instof", e |-> e, t |-> t]               \* e instance of t
 Map(a, r)     == [k |-> "map", s |-> a, r |-> r]                  \* a ! r   (r evaluated with the focus on each item)
+MapLit(ks, vs) == [k |-> "maplit", ks |-> ks, vs |-> vs]           \* map { k1: v1, ... } with integer keys (3.1)
+BLit(x)       == [k |-> "blit", v |-> x]                          \* true() / false()
+NaNLit        == [k |-> "nanlit"]                                 \* xs:double("NaN")
+NZLit         == [k |-> "nzlit"]                                  \* -0e0  (negative zero: equal to 0e0 as a sort key)
 Some(v, a, c) == [k |-> "some", v |-> v, s |-> a, c |-> c]        \* some $v in a satisfies c
 MapK(e)       == [k |-> "mapk", e |-> e]                          \* map{"k": e}?k   (3.1)
 Kids(n)       == [k |-> "kids", n |-> n]                          \* /r/*[position() le n] on the fixed document
@@ -131,7 +135,14 @@ ParamTypes(f) == CASE f.fn = "inline" -> f.types
                             holes == SelectSeq([j \in 1..Len(f.mask) |-> j], LAMBDA j : Has(f.mask[j], "hole")) IN
                         [q \in 1..Len(holes) |-> ts[holes[q]]]
 
-Arity(f) == CASE f.fn = "inline" -> Len(f.params)
+(* maps and arrays ARE function items of arity 1 (XPath 3.1 3.11.1, 3.11.2): $map($key), $array($index) *)
+IsMapOrArray(f) == Has(f, "arr") \/ Has(f, "map")
+LookupMA(f, arg) ==
+  IF Has(f, "arr") THEN f.arr[arg[1].i]                      \* the index is in range in this model (else FOAY0001)
+  ELSE IF \E j \in 1..Len(f.map.ks) : f.map.ks[j] = arg[1].i
+       THEN f.map.vs[CHOOSE j \in 1..Len(f.map.ks) : f.map.ks[j] = arg[1].i] ELSE <<>>
+Arity(f) == IF IsMapOrArray(f) THEN 1 ELSE
+            CASE f.fn = "inline" -> Len(f.params)
               [] f.fn = "named" -> f.arity
               [] f.fn = "partial" -> NHoles(f.mask)
 
@@ -185,7 +196,11 @@ NoKey == [fn |-> "none"]
 KeyOf(x, key) == IF key.fn = "none" THEN <<x>> ELSE Apply(key, << <<x>> >>)
 (* keys are single numbers, booleans (false < true) or one of four strings in codepoint order *)
 StrRank(x) == CASE x = "0" -> 0 [] x = "1" -> 1 [] x = "false" -> 2 [] x = "true" -> 3
-KeyVal(k) == IF Has(k[1], "b") THEN (IF k[1].b THEN 1 ELSE 0)
+(* for fn:sort NaN keys are equal to each other and less than any other number; an empty key is less than
+   a non-empty one (F&O 3.1 16.1 fn:sort); -0e0 = 0e0; 1 = 1.0 = 1e0 *)
+KeyVal(k) == IF k = <<>> THEN -2000000000
+             ELSE IF Has(k[1], "nan") THEN -1000000000
+             ELSE IF Has(k[1], "b") THEN (IF k[1].b THEN 1 ELSE 0)
              ELSE IF Has(k[1], "s") THEN StrRank(k[1].s) ELSE NumOf(k[1])
 KeyLe(a, b) == KeyVal(a) <= KeyVal(b)
 
@@ -214,6 +229,9 @@ ApplyNamed(name, args) ==
     [] name = "math:pow" -> <<D(Pow(NumOf(args[1][1]), NumOf(args[2][1])))>>      \* exponent >= 0 here
     [] name = "concat" -> <<S(ConcatStr([j \in 1..Len(args) |-> StrOf(args[j])]))>>
     [] name = "string" -> <<S(StrOf(args[1]))>>
+    [] name = "string-length" -> <<I(Len(StrOf(args[1])))>>
+    [] name = "number" -> LET x == StrOf(args[1]) IN            \* the strings of this model
+                          IF x = "9" THEN <<D(9)>> ELSE IF x = "10" THEN <<D(10)>> ELSE <<[nan |-> TRUE]>>
     [] name = "count" -> <<I(Len(args[1]))>>
     [] name = "array:flatten" -> Flatten(args[1][1].arr)
     [] name = "reverse" -> RevSeq(args[1])
@@ -226,6 +244,7 @@ ApplyNamed(name, args) ==
     [] name = "sort" -> IF Len(args) = 1 THEN SortBy(args[1], NoKey) ELSE SortBy(args[1], args[3][1])
 
 Apply(f, args) ==
+  IF IsMapOrArray(f) THEN LookupMA(f, args[1]) ELSE
   CASE f.fn = "inline" -> Eval(f.body, Bind(f.env, f.params, ConvertAll(args, f.types)))
     [] f.fn = "named" -> IF Has(f, "focus") THEN ApplyFocus(f.name, f.focus) ELSE ApplyNamed(f.name, args)
     [] f.fn = "partial" -> Apply(f.base, Fill(f.mask, args))
@@ -247,6 +266,10 @@ Eval(e, env) ==
     [] e.k = "instof" -> LET v == Eval(e.e, env) IN <<B(Len(v) = 1 /\ TypeMatch(v[1], e.t))>>
     [] e.k = "kids" -> SubSeq(DocKids, 1, e.n)
     [] e.k = "mapk" -> Eval(e.e, env)
+    [] e.k = "maplit" -> <<[map |-> [ks |-> e.ks, vs |-> EvalArgs(e.vs, env)]]>>
+    [] e.k = "blit" -> <<B(e.v)>>
+    [] e.k = "nanlit" -> <<[nan |-> TRUE]>>
+    [] e.k = "nzlit" -> <<D(0)>>
     [] e.k = "some" -> LET s == Eval(e.s, env) IN
                        <<B(\E j \in 1..Len(s) : EBV(Eval(e.c, Ext(env, e.v, <<s[j]>>))))>>
     [] e.k = "map" ->
